@@ -302,6 +302,8 @@ pub struct Client {
     fixed: Option<Vec<Value>>,
     /// restarts / relaunches issued so far (process creation is the expensive part of a run)
     heavy: usize,
+    /// one request in `mutate_den` gets its arguments mutated
+    mutate_den: usize,
 }
 
 #[derive(Default, Debug)]
@@ -376,7 +378,7 @@ impl Client {
         json!({"seq": seq, "type": "request", "command": command, "arguments": arguments})
     }
     fn mutate(t: &mut Tape, mut args: Value) -> Value {
-        match t.choose(6) {
+        match t.choose(9) {
             0 => Value::Null,
             1 => json!({}),
             2 => {
@@ -403,7 +405,24 @@ impl Client {
                 }
                 args
             }
-            _ => json!([1, 2, 3]),
+            5 => json!([1, 2, 3]),
+            6 => {
+                if let Some(o) = args.as_object_mut() {
+                    for (_, v) in o.iter_mut() {
+                        *v = json!(18_446_744_073_709_551_615u64);
+                    }
+                }
+                args
+            }
+            7 => {
+                if let Some(o) = args.as_object_mut() {
+                    for (_, v) in o.iter_mut() {
+                        *v = json!({"nested": [null, {"x": -0.0}]});
+                    }
+                }
+                args
+            }
+            _ => json!("\u{0}\u{1F600} string instead of object"),
         }
     }
     fn next(&mut self, t: &mut Tape, records: &[Rec]) -> Option<Value> {
@@ -500,7 +519,7 @@ impl Client {
             "setInstructionBreakpoints" => json!({"breakpoints": [{"instructionReference": "0x555555555000"}]}),
             _ => json!({}),
         };
-        if t.chance(1, 10) {
+        if t.chance(1, self.mutate_den.max(1)) {
             args = Self::mutate(t, args);
         }
         if pick == "disconnect" || pick == "terminate" {
@@ -724,7 +743,7 @@ pub fn run(spec: &WorkerSpec) -> WorkerResult {
             Err(e) => return WorkerResult { verdict: "harness_error".into(), detail: e, ..Default::default() },
         }
     } else {
-        Box::new(Client { program: spec.bin.clone(), source, lines: if lines.is_empty() { vec![1] } else { lines }, functions: spec.program.functions.clone(), next_seq: 1, sent: 0, max, done: false, fixed, heavy: 0 })
+        Box::new(Client { program: spec.bin.clone(), source, lines: if lines.is_empty() { vec![1] } else { lines }, functions: spec.program.functions.clone(), next_seq: 1, sent: 0, max, done: false, fixed, heavy: 0, mutate_den: if spec.property == "C08" { 2 } else { 10 } })
     };
     let policy_session_first = spec.params.get("session_first").and_then(|v| v.as_bool()).unwrap_or(false);
     let sh = Arc::new(Shared {
@@ -784,7 +803,12 @@ pub fn run(spec: &WorkerSpec) -> WorkerResult {
     }
     let mut g = sh.m.lock().unwrap();
     let closed_without_disconnect = !g.records.iter().any(|r| matches!(r, Rec::Read(m) if m["command"] == "disconnect" || m["command"] == "terminate"));
-    let mut violations = if spec.property == "C13" || spec.property == "C15" { vec![] } else { check_wire(&g.records, &run_result, closed_without_disconnect, &spec.property) };
+    let mut violations = if spec.property == "C08" {
+        match &run_result {
+            Err(e) if !(closed_without_disconnect && e.contains("connection closed")) => vec![Violation { property: "C08".into(), invariant: "dap_session_died".into(), detail: format!("DebugSession::run returned an error: {e}"), step: g.records.len() }],
+            _ => vec![],
+        }
+    } else if spec.property == "C13" || spec.property == "C15" { vec![] } else { check_wire(&g.records, &run_result, closed_without_disconnect, &spec.property) };
     let recs = g.records.clone();
     let (dv, dstats) = g.client.finish(&recs);
     violations.extend(dv);
